@@ -157,6 +157,18 @@ func tIte(c, a, b T) T {
 	case a.S == b.S:
 		return a
 	}
+	if a.Sort == sBool {
+		switch {
+		case a.S == "true":
+			return tOr(c, b)
+		case a.S == "false":
+			return tAnd(tNot(c), b)
+		case b.S == "true":
+			return tOr(tNot(c), a)
+		case b.S == "false":
+			return tAnd(c, a)
+		}
+	}
 	return T{app("ite", c, a, b), a.Sort}
 }
 
